@@ -27,8 +27,21 @@ class Raiser:
         return 7
 
 
+def lookalikes(e):
+    """Foreign objects whose class merely has the same NAME as e's class (another library's Add / Negation ...): one
+    without any attributes, one that carries copies of e's instance attributes."""
+    bare = type(type(e).__name__, (), {})()
+    clone = type(type(e).__name__, (), {})()
+    for k, v in vars(e).items():
+        try:
+            setattr(clone, k, v)
+        except Exception:  # noqa
+            pass
+    return [bare, clone]
+
+
 def foreign_objects(e):
-    return [None, 0, 1, 2.5, "x", "Variable(\"x\")", (), (e,), [e], {"a": 1}, object(), Raiser(), type(e), lib.Point(x=1),
+    return lookalikes(e) + [None, 0, 1, 2.5, "x", "Variable(\"x\")", (), (e,), [e], {"a": 1}, object(), Raiser(), type(e), lib.Point(x=1),
             lib.Partial(e, "x"), lib.Differential(e), True, NotImplemented, Ellipsis, float("nan")]
 
 
@@ -65,6 +78,7 @@ def expect_pair(stats, a, b, want_equal, desc, case, sub):
 
 
 def check_expressions(stats, ma, mb, mc, kind, sub="expr"):
+    ma, mb, mc = safe(ma), safe(mb), safe(mc)      # early derivative objects simplify their operand
     stats.case()
     case = make_case(sub, ma, None, b=M.to_json(mb), c=M.to_json(mc), kind=kind)
     a, b, c = fresh(ma), fresh(mb), fresh(mc)
@@ -97,11 +111,33 @@ def deriv_pairs(stats, a, b, same, case):
         name_b = vb if isinstance(vb, str) else vb.name
         expect_pair(stats, lib.Partial(a, var_a), lib.Partial(b, vb, compute_early=False), same and var_a == name_b,
                     "Partial", case, "deriv")
+    # equality must not depend on compute_early, on whether as_expression() was called, or on the route an object came by
+    for va in (("x",) if stats.evaluations % 4 == 0 else ()):      # every fourth case: it simplifies both expressions five times
+        objs_a = []
+        for make in (lambda e: lib.Partial(e, va), lambda e: lib.Partial(e, va, compute_early=True),
+                     lambda e: lib.Differential(e, compute_early=True).component(va), lambda e: lib.Differential(e).component(va),
+                     lambda e: _with_expression(lib.Partial(e, va))):
+            o = lib.call(lambda: make(a))
+            p2 = lib.call(lambda: make(b))
+            if o.kind == lib.OBJ and p2.kind == lib.OBJ:
+                objs_a.append((o.value, p2.value))
+        for i, (oa, _ob) in enumerate(objs_a):
+            for j, (_oa, ob) in enumerate(objs_a):
+                expect_pair(stats, oa, ob, same, f"Partial-routes:{i}:{j}", case, "deriv")
+    for p in lookalikes(lib.Partial(a, "x")) + lookalikes(lib.Differential(a)):
+        out = eq_outcome(lib.Partial(a, "x"), p) if type(p).__name__ == "Partial" else eq_outcome(lib.Differential(a), p)
+        if out != (False, True):
+            raise violation(ID, "foreign", f"foreign-lookalike:{type(p).__name__}", case, f"a same-named foreign {type(p).__name__} object compared {out}")
     expect_pair(stats, lib.Differential(a), lib.Differential(b), same, "Differential", case, "deriv")
     expect_pair(stats, lib.Partial(a, "x"), lib.Differential(b), False, "Partial-vs-Differential", case, "deriv")
     if len(a._variable_names) <= 1 and len(b._variable_names) <= 1:
         expect_pair(stats, lib.Derivative(a), lib.Derivative(b), same, "Derivative", case, "deriv")
     stats.count("deriv-pairs")
+
+
+def _with_expression(partial):
+    partial.as_expression()
+    return partial
 
 
 def lib_variable(name):
@@ -142,7 +178,7 @@ def check_points(stats, pa, pb, kind):
     want = (set(pa) == set(pb)) and all(pa[k] == pb[k] for k in pa)
     expect_pair(stats, A, B, want, "Point:" + kind, case, "point")
     expect_pair(stats, A, lib.Point(**dict(reversed(list(pa.items())))), True, "Point:reordered", case, "point")
-    for f in (None, 1, "Point(x=1)", (), dict(pa), Raiser(), lib_variable("x")):
+    for f in lookalikes(A) + [None, 1, "Point(x=1)", (), dict(pa), Raiser(), lib_variable("x")]:
         out = eq_outcome(A, f)
         if out != (False, True):
             raise violation(ID, "foreign", f"foreign-point:{type(f).__name__}", case, f"{A!r} vs {type(f).__name__}: {out}")
